@@ -114,6 +114,15 @@ class History:
         self.refused = []
         self.rebuilds = 0
 
+    def reopen(self):
+        """Master the image and continue the history on a fresh object that opened it; recorded
+        in the op list as the marker {'op': 'reopen'} (driver.replay understands it)."""
+        s2, out = driver.advance(self.sess, {'op': 'reopen'})
+        if not out.ok:
+            return False
+        self.sess = s2
+        return True
+
     def extend(self, n, pre=None):
         for _ in range(n):
             op = self.gen.gen_op(self.sess.model)
@@ -134,7 +143,7 @@ class History:
         return out
 
     def rebuild(self):
-        acc = list(self.sess.accepted)
+        acc = list(self.ops)
         self.sess.close()
         self.sess = driver.replay(self.cfg, acc, self.seed, self.always_consistent)
         self.rebuilds += 1
